@@ -26,6 +26,14 @@ class Boom(Exception):
     pass
 
 
+class BoomBase(BaseException):
+    """a block can also be left by an exception that is not an Exception (KeyboardInterrupt, SystemExit, GeneratorExit)"""
+
+
+SNAPSHOTS = []          # snapshots taken earlier by "read" and kept alive: mutated again later (aliasing with saved state)
+COUNTER = [0]
+
+
 def observe(out, trace):
     b = get_config()["plot_backend"]
     trace.append((b, out))
@@ -54,9 +62,17 @@ def exec_prog(prog, trace, flat, av):
                 PROPERTY_FAILS.append(f"failed set_config changed the configuration {before} -> {get_config()}")
         elif k == "read":
             flat.append(f"ReadMutate {COQ_B[node[1]]}")
+            # mutate every snapshot taken so far (they must all be independent copies), then take a new one,
+            # keep it alive un-mutated half of the time (it is mutated by a later read, possibly inside a block)
+            for old_snap in SNAPSHOTS:
+                old_snap["plot_backend"] = node[1]
+                old_snap["other"] = 3
             d = get_config()
-            d["plot_backend"] = node[1]
-            d["other"] = 3
+            COUNTER[0] += 1
+            if COUNTER[0] % 2:
+                d["plot_backend"] = node[1]
+                d["other"] = 3
+            SNAPSHOTS.append(d)
             observe("Done", trace)
             if get_config() != before:
                 PROPERTY_FAILS.append(f"mutating the dict returned by get_config changed the configuration to {get_config()}")
@@ -70,8 +86,9 @@ def exec_prog(prog, trace, flat, av):
                     exec_prog(node[2], trace, flat, av)
                     flat.append(f"Leave {'true' if node[3] else 'false'}")
                     if node[3]:
-                        raise Boom()
-            except Boom:
+                        COUNTER[0] += 1
+                        raise (Boom() if COUNTER[0] % 3 else BoomBase())
+            except (Boom, BoomBase):
                 pass
             except ValueError:
                 if entered:
@@ -85,6 +102,9 @@ def exec_prog(prog, trace, flat, av):
                     raise
                 observe("ModuleNotFound", trace)
                 continue
+            except Exception as e:  # noqa: BLE001 - anything else escaping from the context manager itself
+                PROPERTY_FAILS.append(f"entering / leaving the block raised {type(e).__name__}: {str(e)[:120]} "
+                                      f"(configuration at entry {before}, now {get_config()})")
             observe("Done", trace)
             if get_config() != before:
                 PROPERTY_FAILS.append(f"configuration after leaving the block {get_config()} differs from the one at entry {before} "
@@ -134,6 +154,7 @@ def run_one(prog, av):
     cfgmod.find_spec = (lambda name: object()) if av else (lambda name: None)
     trace, flat = [], []
     del PROPERTY_FAILS[:]
+    del SNAPSHOTS[:]
     exec_prog(prog, trace, flat, av)
     keys = sorted(cfgmod._global_config)
     return trace, flat, keys, list(PROPERTY_FAILS)
